@@ -63,6 +63,46 @@ fn main() {
     if args.len() >= 2 && args[1] == "SQL" {
         std::process::exit(sqlprobe::main());
     }
+    if args.len() >= 2 && args[1] == "LEAK" {
+        // development aid: does a created-and-dropped database give its memory back?
+        let rss = || std::fs::read_to_string("/proc/self/statm").ok().and_then(|s| s.split_whitespace().nth(1).and_then(|x| x.parse::<u64>().ok())).unwrap_or(0) * 4 / 1024;
+        let close = args.get(2).map(|s| s == "close").unwrap_or(false);
+        for round in 0..6 {
+            for _ in 0..50 {
+                let mut db = world::Db::create("leak");
+                let _ = db.exec("CREATE TABLE t (a INT PRIMARY KEY, b TEXT)");
+                for k in 0..6 {
+                    let vary = args.get(3).map(|s| s == "vary").unwrap_or(false);
+                    let vals: Vec<String> = (0..100).map(|i| format!("({}, '{}{}')", k * 100 + i, if vary { format!("{}", rss() as usize + round * 1000 + i) } else { String::new() }, "w".repeat(160))).collect();
+                    let _ = db.exec(&format!("INSERT INTO t VALUES {}", vals.join(", ")));
+                }
+                if args.get(4).map(|s| s == "select").unwrap_or(false) {
+                    let mode = args.get(5).cloned().unwrap_or_default();
+                    if mode == "ddl" {
+                        let _ = db.exec("CREATE INDEX ix ON t (b)");
+                        let _ = db.exec("CREATE TABLE u (x INT, y TEXT UNIQUE)");
+                    }
+                    for q in 0..40 {
+                        match mode.as_str() {
+                            "count" => { let _ = db.query("SELECT COUNT(*) FROM t"); }
+                            "range" => { let _ = db.query(&format!("SELECT * FROM t WHERE a >= {} AND a <= {}", q, q + 5)); }
+                            "upd" => { let _ = db.exec(&format!("UPDATE t SET b = 'x{}' WHERE a = {}", q, q)); }
+                            "del" => { let _ = db.exec(&format!("DELETE FROM t WHERE a = {}", q)); }
+                            "err" => { let _ = db.exec(&format!("INSERT INTO t VALUES ({}, 'dup')", q)); }
+                            _ => { let _ = db.query(&format!("SELECT * FROM t WHERE a = {}", q + round * 7)); let _ = db.query("SELECT * FROM t"); }
+                        }
+                    }
+                }
+                if close {
+                    if let Some(h) = db.handle.take() {
+                        let _ = h.close();
+                    }
+                }
+            }
+            println!("after {} databases: rss {} MB", (round + 1) * 50, rss());
+        }
+        std::process::exit(0);
+    }
     if args.len() >= 2 && args[1] == "BENCH" {
         let t0 = std::time::Instant::now();
         for _ in 0..20 {
